@@ -60,6 +60,7 @@ def run(chk):
     x86order.prefix_order(chk, emit, UNIT)
     x86order.gpb_compare(chk, emit, UNIT)
     x86order.field_compare(chk, emit, UNIT)
+    x86order.nodisp_not_bp(chk, emit, UNIT)
     fd = chk.facts(DBUNIT, tables=r"asmjit::x86::InstDB::(_inst_info_table|main_opcode_table|alt_opcode_table)$", enums=r"asmjit::x86::Inst::Id$|asmjit::x86::Opcode::Bits$")
     OB = {n: v for n, v in fd["enums"]["asmjit::x86::Opcode::Bits"]["enumerators"]}
     rows = fd["tables"]["asmjit::x86::InstDB::_inst_info_table"]["value"]
